@@ -73,7 +73,8 @@ theorem C12_break (s : State) (hb : s.blind.isBreaking = true) :
 /-- … nor by the retry loop: a break announced while `tableGameOpen` waits to retry a refused open stops the retry -/
 theorem C12_break_retry (s : State) (hb : s.blind.isBreaking = true) (ch : Option Int) (ok : Bool) :
     (retryOpen s ch ok).2 ≠ .opened ∧ (retryOpen s ch ok).1 = s :=
-  ⟨(C07_retry_no_open_when s ch ok (Or.inr (Or.inl hb))).1, (C07_retry_no_open_when s ch ok (Or.inr (Or.inl hb))).2.2⟩
+  ⟨(C07_retry_no_open_when s ch ok (Or.inr (Or.inr (Or.inr (Or.inl hb))))).1,
+   (C07_retry_no_open_when s ch ok (Or.inr (Or.inr (Or.inr (Or.inl hb))))).2.2⟩
 
 theorem C12_break_pauses (s : State) (hb : s.blind.isBreaking = true) (hr : s.released = false)
     (hok : (continueGame s false).2 ≠ .failed) :
